@@ -27,6 +27,7 @@ Forms == [tmpl : Templates, t : TwpNums, ns : {"N", "S", "-"}, r : RgeNums, ew :
 Readable(f) ==
   /\ (f.ns = "-" \/ f.ew = "-") => HasWords(f.tmpl)
   /\ f.r = 2 => HasWords(f.tmpl)
+OcrReadable(f) == ~(f.ns = "-" \/ f.ew = "-") /\ HasWords(f.tmpl) /\ f.r # 2
 Defaults == [ns : {"N", "S"}, ew : {"E", "W"}]
 Sources == {"config", "keyword", "masterconfig", "unset"}      \* unset: library defaults (N, W)
 \* each axis has its own source (e.g. N/S from the config text, E/W from a parse keyword)
@@ -45,8 +46,9 @@ Init == forms = <<>> /\ dflt \in Defaults /\ src \in SrcPairs /\ ocr \in BOOLEAN
 Choose == /\ phase = "choose"
           /\ \E n \in 1..MaxTR : \E fs \in [1..n -> Forms] :
                /\ \A i \in 1..n : Readable(fs[i])
-               \* the OCR pattern needs both directions, the word/letter for Township, and no single-digit range 2
-               /\ (ocr => \A i \in 1..n : ~Missing(fs[i]) /\ HasWords(fs[i].tmpl) /\ fs[i].r # 2)
+               \* (with ocr_scrub, look-alike characters are written only into forms the OCR pattern can read: both
+               \*  directions, the word/letter for Township, no single-digit range 2 - see OcrReadable; every other
+               \*  form is written with plain digits and must be read as without ocr_scrub)
                /\ forms' = fs
           /\ phase' = "chosen" /\ UNCHANGED <<dflt, src, ocr>>
 Spec == Init /\ [][Choose]_vars
